@@ -24,7 +24,7 @@ CHUNK = 200
 CORRESPONDENCE = ("Model.Proxy.{replace_node,replace_node_multi,relabel_graph,relabel_graph_multi} ~ "
                   "fgutils.proxy.{replace_node,relabel_graph} on networkx.Graph / networkx.MultiGraph "
                   "(Base.NX / Base.NXMulti), exact equality incl. dict orders and edge keys")
-RULE = ("parent graphs = random SMILES-like pattern strings (30% 'stars': a labelled centre with 0-5 bonds, some doubled "
+RULE = ("parent graphs = random SMILES-like pattern strings (450 quick / 10000 thorough single calls; 30% 'stars': a labelled centre with 0-5 bonds, some doubled "
         "through ring closures; else 1-10 atoms, branches, one ring token per atom incl. "
         "rings closed on the neighbouring atom = parallel bonds in a multigraph, explicit/ITS <g,h> bonds, '.' "
         "non-bonds, node labels) parsed by the real Parser(use_multigraph=False|True); 35% of the parents are "
@@ -34,7 +34,12 @@ RULE = ("parent graphs = random SMILES-like pattern strings (30% 'stars': a labe
         "rings, labelled nodes, ITS bonds, random pattern <= 5 atoms}; anchor list of length 1..degree+2 with "
         "values inside the sub-pattern (repeats allowed), 6% out of range/negative/empty, 2% node not in the graph; "
         "corpus = D21 witness, a hand-built parent with adjacency out of node order, the substitutions of "
-        "test/test_proxy.py, anchor overflow and double attachment, each for both graph classes; plus random "
+        "test/test_proxy.py, anchor overflow and double attachment, each for both graph classes; history cases "
+        "(45 quick / 1000 thorough + 8 corpus): ONE ProxyGraph object and ONE Parser object used for 2-3 consecutive "
+        "calls on different parents/nodes, 40% of the later calls on the previous call's result (as build_graphs "
+        "does), every call compared with the model on its own inputs and the original anchors; after every call "
+        "runtime invariants: graph argument, ProxyGraph.pattern/anchor (object and contents), caller's anchor list, "
+        "ProxyGraph's default anchor list unchanged, parser still parses, earlier results not modified later; plus random "
         "operation sequences validating the MultiGraph model itself (kind=mtie: 130 quick / 2000 thorough). "
         "non-trivial = replaced node has degree >= 1 (mtie: >= 3 operations); distinct = distinct (graph class, "
         "parent with all dict orders, node, pattern, anchors)")
@@ -182,8 +187,8 @@ def rand_anchors(rng, deg, k):
     return a
 
 
-def gen_replace_case(rng):
-    mg = rng.random() < 0.5
+def gen_parent(rng, mg):
+    """(graph, node, order, source pattern) for one replace_node call."""
     while True:
         pat = star_pattern(rng) if rng.random() < 0.3 else rand_pattern(rng, rng.randint(1, 10))
         g = safe_parse(mg, pat)
@@ -210,6 +215,12 @@ def gen_replace_case(rng):
     elif r < 0.47:
         node = rng.choice([-1, g.number_of_nodes(), g.number_of_nodes() + 3])   # not a node
         order = "parsed"
+    return g, node, order, pat
+
+
+def gen_replace_case(rng):
+    mg = rng.random() < 0.5
+    g, node, order, pat = gen_parent(rng, mg)
     while True:
         sub = rand_sub_pattern(rng)
         h = safe_parse(mg, sub, len(g.nodes))
@@ -218,15 +229,44 @@ def gen_replace_case(rng):
     deg = g.degree(node) if node in g else 0
     anchors = rand_anchors(rng, deg, h.number_of_nodes())
     return {"kind": "replace", "mg": mg, "graph": g, "node": node, "pattern": sub, "anchors": anchors,
-            "order": order, "src": pat}
+            "order": order, "src": pat, "default_anchor": anchors == [0] and rng.random() < 0.5}
+
+
+def gen_history_case(rng):
+    """The SAME ProxyGraph object and the SAME Parser object used for 2-3 consecutive replace_node calls
+    (what build_graphs does with a group's ProxyGraph). A step marked chain=True takes the previous step's
+    actual result as its parent (filled in by run_impl, the pre-generated parent is the fallback)."""
+    mg = rng.random() < 0.5
+    nsteps = rng.choice([2, 2, 3])
+    steps = []
+    for j in range(nsteps):
+        g, node, order, pat = gen_parent(rng, mg)
+        steps.append({"graph": g, "node": node, "order": order, "src": pat,
+                      "chain": j > 0 and rng.random() < 0.4, "pick": rng.randrange(0, 1000)})
+    while True:
+        sub = rand_sub_pattern(rng) if rng.random() < 0.3 else rng.choice(
+            ["CC", "NO", "CCC", "C=O", "C{a}", "N(C)C", "C1CC1", "C<2,1>C", "C<2,1>C<1,2>C<2,1>C", "{g}C", "C{g}"])
+        if safe_parse(mg, sub, 0) is not None:
+            break
+    k = safe_parse(mg, sub, 0).number_of_nodes()
+    deg = max([st["graph"].degree(st["node"]) if st["node"] in st["graph"] else 0 for st in steps])
+    anchors = rand_anchors(rng, deg, k)
+    if k >= 2 and len(anchors) < 2 and rng.random() < 0.7:
+        anchors = [rng.randrange(0, k) for _ in range(rng.randint(2, 3))]   # several anchors: order matters
+    return {"kind": "history", "mg": mg, "steps": steps, "pattern": sub, "anchors": anchors,
+            "default_anchor": anchors == [0] and rng.random() < 0.5}
 
 
 def generate(seed, tier, ncases=None):
-    n = ncases or (520 if tier == "quick" else 10000)
+    n = ncases or (450 if tier == "quick" else 10000)
     n_tie = max(1, n // 4) if ncases else (130 if tier == "quick" else 2000)
+    n_hist = max(1, n // 10) if ncases else (45 if tier == "quick" else 1000)
     for i in range(n):
         rng = lib.rng_for(seed, ID, i)
         yield gen_replace_case(rng)
+    for i in range(n_hist):
+        rng = lib.rng_for(seed, ID + "hist", i)
+        yield gen_history_case(rng)
     for i in range(n_tie):
         rng = lib.rng_for(seed, ID + "mtie", i)
         ops, g = nxtie_multi.gen_case(rng)
@@ -237,6 +277,16 @@ def _corpus_case(mg, core, node, pattern, anchors, shuffle=None):
     g = Parser(use_multigraph=mg).parse(core)
     return {"kind": "replace", "mg": mg, "graph": g, "node": node, "pattern": pattern, "anchors": list(anchors),
             "order": "parsed", "src": core}
+
+
+def _corpus_history(mg, pattern, anchors, calls, default_anchor=False):
+    """calls: list of (core pattern | None = previous result, node)."""
+    steps = []
+    for core, node in calls:
+        g = Parser(use_multigraph=mg).parse(core if core is not None else "C")
+        steps.append({"graph": g, "node": node, "order": "parsed", "src": core, "chain": core is None, "pick": 0})
+    return {"kind": "history", "mg": mg, "steps": steps, "pattern": pattern, "anchors": list(anchors),
+            "default_anchor": default_anchor}
 
 
 def corpus():
@@ -270,25 +320,143 @@ def corpus():
         yield _corpus_case(mg, "N{g}(O)(S)C", 1, "CCC", [2, 0])
         yield _corpus_case(mg, "C1{g}1", 1, "CO", [0, 1])
         yield _corpus_case(mg, "C1{g}=1", 1, "CO", [1])
+        # one ProxyGraph object used repeatedly (anchor list must not be consumed): same group label twice in a
+        # core (second call on the first result, as build_graphs does), several cores, repeated sampling
+        yield _corpus_history(mg, "CCC", [0, 2], [("C1{g}C1", 1), ("N{g}(O)(S)C", 1), ("O{g}=S", 1)])
+        yield _corpus_history(mg, "NO", [1, 0], [("C{g}(=O){g}(Cl)S", 1), (None, 0)])
+        yield _corpus_history(mg, "C<2,1>C", [0, 1], [("{g}1<0,1>{g}<0,1>1", 0), (None, 0)])
+        yield _corpus_history(mg, "CC", [0], [("C{g}C", 1), ("N{g}O", 1)], default_anchor=True)
 
 
-def run_impl(c):
-    if c["kind"] == "mtie":
-        return ("tie", c["final"])
-    g = cm.copy_exact(c["graph"])
-    parser = Parser(use_multigraph=c["mg"])
+PROBE = "C1(=O)c{q}1"      # parsed after every call to see that the Parser object is still usable
+
+
+def _make_proxy_graph(c, anchors_arg):
+    # ProxyGraph's anchor parameter has the mutable default [0]: exercise it as well
+    if c.get("default_anchor"):
+        return ProxyGraph(c["pattern"])
+    return ProxyGraph(c["pattern"], anchor=anchors_arg)
+
+
+def _call(graph, node, pg, parser):
+    """One replace_node call on an exact copy; returns (status, result | message, parent untouched?)."""
+    g = cm.copy_exact(graph)
     try:
-        res = replace_node(g, c["node"], ProxyGraph(c["pattern"], anchor=list(c["anchors"])), parser)
-        out = ("ok", res)
+        out = ("ok", replace_node(g, node, pg, parser))
     except nx.NetworkXError as e:
         out = ("NetworkXError", str(e))
     except IndexError as e:
         out = ("IndexError", str(e))
-    return out + (cm.identical(g, c["graph"]),)
+    return out + (cm.identical(g, graph),)
 
 
-def sub_graph(c):
-    return Parser(use_multigraph=c["mg"]).parse(c["pattern"], idx_offset=len(c["graph"].nodes))
+def _object_invariants(c, pg, anchors_arg, anchor_obj, parser, where):
+    """What replace_node may NOT touch: the ProxyGraph (pattern, anchor list object and contents, name,
+    properties), the caller's anchor list, the mutable default of ProxyGraph.__init__, and the parser's
+    configuration; the parser must still parse. (It MAY reset the parser's working state: parse() does.)"""
+    msgs = []
+    if pg.pattern != c["pattern"]:
+        msgs.append("%s: ProxyGraph.pattern changed to %r" % (where, pg.pattern))
+    if pg.anchor is not anchor_obj:
+        msgs.append("%s: ProxyGraph.anchor was rebound to another object" % where)
+    if list(pg.anchor) != list(c["anchors"]):
+        msgs.append("%s: ProxyGraph.anchor changed from %r to %r" % (where, list(c["anchors"]), list(pg.anchor)))
+    if anchors_arg != list(c["anchors"]):
+        msgs.append("%s: the caller's anchor list changed from %r to %r" % (where, list(c["anchors"]), anchors_arg))
+    if pg.name is not None or pg.properties != {}:
+        msgs.append("%s: ProxyGraph.name/properties changed" % where)
+    if ProxyGraph.__init__.__defaults__[0] != [0]:
+        msgs.append("%s: the default anchor list of ProxyGraph.__init__ is now %r" % (where, ProxyGraph.__init__.__defaults__[0]))
+        ProxyGraph.__init__.__defaults__[0][:] = [0]      # do not poison the following cases
+    if parser.use_multigraph != c["mg"]:
+        msgs.append("%s: parser.use_multigraph changed" % where)
+    try:
+        probe = parser.parse(PROBE, idx_offset=2)
+        if not cm.identical(probe, Parser(use_multigraph=c["mg"]).parse(PROBE, idx_offset=2)):
+            msgs.append("%s: the parser object parses %r differently after the call" % (where, PROBE))
+    except Exception as e:
+        msgs.append("%s: the parser object is unusable after the call: %r" % (where, e))
+    return msgs
+
+
+def _pick_node(g, pick):
+    labelled = [n for n in g.nodes if g.nodes[n].get("is_labeled")]
+    pool = labelled or list(g.nodes)
+    return pool[pick % len(pool)]
+
+
+def run_impl(c):
+    """replace: ("ok"|exception, result|msg, [invariant messages]); history: ("hist", [step outputs], [messages])."""
+    if c["kind"] == "mtie":
+        return ("tie", c["final"], [])
+    anchors_arg = list(c["anchors"])
+    pg = _make_proxy_graph(c, anchors_arg)
+    anchor_obj = pg.anchor
+    parser = Parser(use_multigraph=c["mg"])
+    if c["kind"] == "replace":
+        st, res, same = _call(c["graph"], c["node"], pg, parser)
+        msgs = [] if same else ["replace_node mutated its graph argument"]
+        msgs += _object_invariants(c, pg, anchors_arg, anchor_obj, parser, "after the call")
+        return (st, res, msgs)
+    outs, snaps, msgs = [], [], []
+    prev = None
+    for j, step in enumerate(c["steps"]):
+        if step.get("chain"):
+            # the parent of this step is the previous actual result (as in build_graphs); from now on a fixed input
+            if prev is not None and prev.number_of_nodes() > 0 and not has_selfloop(prev):
+                step["graph"] = cm.copy_exact(prev)
+                step["node"] = _pick_node(prev, step["pick"])
+                step["order"] = "chained"
+            step["chain"] = False
+        st, res, same = _call(step["graph"], step["node"], pg, parser)
+        if not same:
+            msgs.append("step %d: replace_node mutated its graph argument" % j)
+        msgs += _object_invariants(c, pg, anchors_arg, anchor_obj, parser, "after step %d" % j)
+        outs.append((st, res))
+        snaps.append(cm.copy_exact(res) if st == "ok" else None)
+        prev = res if st == "ok" else None
+    for j, (st, res) in enumerate(outs):
+        if st == "ok" and not cm.identical(res, snaps[j]):
+            msgs.append("the result of step %d was modified by a later call" % j)
+    return ("hist", outs, msgs)
+
+
+def sub_graph(c, graph=None):
+    graph = c["graph"] if graph is None else graph
+    return Parser(use_multigraph=c["mg"]).parse(c["pattern"], idx_offset=len(graph.nodes))
+
+
+def _step_terms(c, graph, node, out, sfx):
+    """Definitions and check expressions of one replace_node call; names get the suffix sfx."""
+    mg = c["mg"]
+    h = sub_graph(c, graph)
+    ty = "mgraph" if mg else "graph"
+    defs = {"g" + sfx: cm.any_graph(graph), "h" + sfx: cm.any_graph(h)}
+    if out[0] == "ok":
+        if out[1].is_multigraph() != mg:
+            raise ct.Unrepresentable("result graph class differs from the parent's")
+        defs["out" + sfx] = "(POk %s)" % cm.any_graph(out[1])
+    elif out[0] == "NetworkXError":
+        defs["out" + sfx] = "(@PErr %s ENoNode)" % ty
+    else:
+        defs["out" + sfx] = "(@PErr %s EIndex)" % ty
+    args = "$g%s %s $h%s $anchors" % (sfx, ct.z(node), sfx)
+    if mg:
+        model = "replace_node_multi " + args
+        agree = "pres_eqb mgraph_eqb (%s) $out%s" % (model, sfx)
+        spec = "replace_multi_okb %s $out%s" % (args, sfx)
+    else:
+        model = "replace_node " + args
+        agree = "pres_eqb graph_eqb (%s) $out%s" % (model, sfx)
+        spec = "replace_okb %s $out%s" % (args, sfx)
+    return defs, agree, spec, model
+
+
+def _conj(exprs):
+    e = "true"
+    for x in reversed(exprs):
+        e = "(andb (%s) %s)" % (x, e)
+    return e
 
 
 def coq_case(c, out):
@@ -296,47 +464,54 @@ def coq_case(c, out):
         cc = nxtie_multi.coq_case(c["ops"], out[1])
         cc["checks"]["spec"] = "true"
         return cc
-    mg = c["mg"]
-    h = sub_graph(c)
-    ty = "mgraph" if mg else "graph"
-    defs = {"g": cm.any_graph(c["graph"]), "h": cm.any_graph(h),
-            "anchors": "(%s : list Z)" % ct.lst([ct.z(a) for a in c["anchors"]])}
-    if out[0] == "ok":
-        if out[1].is_multigraph() != mg:
-            raise ct.Unrepresentable("result graph class differs from the parent's")
-        defs["out"] = "(POk %s)" % cm.any_graph(out[1])
-    elif out[0] == "NetworkXError":
-        defs["out"] = "(@PErr %s ENoNode)" % ty
-    else:
-        defs["out"] = "(@PErr %s EIndex)" % ty
-    node = ct.z(c["node"])
-    if mg:
-        model = "replace_node_multi $g %s $h $anchors" % node
-        agree = "pres_eqb mgraph_eqb (%s) $out" % model
-        spec = "replace_multi_okb $g %s $h $anchors $out" % node
-    else:
-        model = "replace_node $g %s $h $anchors" % node
-        agree = "pres_eqb graph_eqb (%s) $out" % model
-        spec = "replace_okb $g %s $h $anchors $out" % node
-    return {"defs": defs, "checks": {"agree": agree, "spec": spec}, "diag": [model]}
+    defs = {"anchors": "(%s : list Z)" % ct.lst([ct.z(a) for a in c["anchors"]])}
+    if c["kind"] == "replace":
+        d, agree, spec, model = _step_terms(c, c["graph"], c["node"], out, "")
+        defs.update(d)
+        return {"defs": defs, "checks": {"agree": agree, "spec": spec}, "diag": [model]}
+    # history: every call is compared with the model on ITS OWN inputs and the ORIGINAL anchors
+    agrees, specs, models = [], [], []
+    for j, (step, o) in enumerate(zip(c["steps"], out[1])):
+        d, agree, spec, model = _step_terms(c, step["graph"], step["node"], o, "_%d" % j)
+        defs.update(d)
+        agrees.append(agree)
+        specs.append(spec)
+        models.append(model)
+    return {"defs": defs, "checks": {"agree": _conj(agrees), "spec": _conj(specs)}, "diag": models}
 
 
 def describe(c):
     if c["kind"] == "mtie":
         return {"kind": "mtie", "ops": [repr(o) for o in c["ops"]]}
+    if c["kind"] == "history":
+        return {"kind": "history", "mg": c["mg"], "pattern": c["pattern"], "anchors": list(c["anchors"]),
+                "default_anchor": bool(c.get("default_anchor")),
+                "steps": [{"graph": cm.graph_py(st["graph"]), "node": st["node"], "order": st["order"],
+                           "src": st.get("src"), "chain": bool(st.get("chain")), "pick": st.get("pick", 0)}
+                          for st in c["steps"]]}
     return {"kind": "replace", "mg": c["mg"], "graph": cm.graph_py(c["graph"]), "node": c["node"],
-            "pattern": c["pattern"], "anchors": list(c["anchors"]), "order": c["order"], "src": c.get("src")}
+            "pattern": c["pattern"], "anchors": list(c["anchors"]), "order": c["order"], "src": c.get("src"),
+            "default_anchor": bool(c.get("default_anchor"))}
 
 
 def from_json(d):
     if d["kind"] == "mtie":
         raise SystemExit("operation-sequence cases are replayed with harness/nxtie_multi.py")
+    if d["kind"] == "history":
+        steps = [{"graph": cm.graph_from_py(dict(st["graph"], multigraph=d["mg"])), "node": st["node"],
+                  "order": st.get("order", "replay"), "src": st.get("src"), "chain": bool(st.get("chain")),
+                  "pick": st.get("pick", 0)} for st in d["steps"]]
+        return {"kind": "history", "mg": d["mg"], "steps": steps, "pattern": d["pattern"],
+                "anchors": list(d["anchors"]), "default_anchor": bool(d.get("default_anchor"))}
     g = cm.graph_from_py(dict(d["graph"], multigraph=d["mg"]))
     return {"kind": "replace", "mg": d["mg"], "graph": g, "node": d["node"], "pattern": d["pattern"],
-            "anchors": list(d["anchors"]), "order": d.get("order", "replay"), "src": d.get("src")}
+            "anchors": list(d["anchors"]), "order": d.get("order", "replay"), "src": d.get("src"),
+            "default_anchor": bool(d.get("default_anchor"))}
 
 
 def describe_out(out):
+    if out[0] == "hist":
+        return {"status": "hist", "steps": [describe_out(o) for o in out[1]]}
     if out[0] in ("ok", "tie"):
         return {"status": out[0], "graph": cm.graph_py(out[1])}
     return {"status": out[0], "msg": out[1]}
@@ -345,22 +520,28 @@ def describe_out(out):
 def key(c):
     if c["kind"] == "mtie":
         return ("mtie", tuple(repr(o) for o in c["ops"]))
+    if c["kind"] == "history":
+        return ("hist", c["mg"], tuple((cm.canon(st["graph"]), st["node"]) for st in c["steps"]),
+                c["pattern"], tuple(c["anchors"]))
     return (c["mg"], cm.canon(c["graph"]), c["node"], c["pattern"], tuple(c["anchors"]))
 
 
-def _deg(c):
-    g = c["graph"]
-    return g.degree(c["node"]) if c["node"] in g else -1
+def _deg(c, graph=None, node=None):
+    g = c["graph"] if graph is None else graph
+    node = c["node"] if graph is None else node
+    return g.degree(node) if node in g else -1
 
 
 def nontrivial(c, out):
     if c["kind"] == "mtie":
         return len(c["ops"]) >= 3
+    if c["kind"] == "history":
+        # at least two calls that actually re-attach a bond
+        return sum(1 for st in c["steps"] if _deg(c, st["graph"], st["node"]) >= 1) >= 2
     return _deg(c) >= 1
 
 
-def _contig(c):
-    g = c["graph"]
+def _contig(g):
     return sorted(g.nodes) == list(range(g.number_of_nodes()))
 
 
@@ -368,13 +549,31 @@ def classes(c, out):
     if c["kind"] == "mtie":
         yield "kind=mtie"
         return
+    if c["kind"] == "history":
+        yield "kind=history"
+        yield "history_class=" + ("multigraph" if c["mg"] else "graph")
+        yield "history_steps=%d" % len(c["steps"])
+        if any(st["order"] == "chained" for st in c["steps"]):
+            yield "history_chained=yes"
+        yield "history_anchors=%s" % ("1" if len(c["anchors"]) == 1 else "0" if not c["anchors"] else "2+")
+        # calls after the first one in which the anchor ORDER matters (degree >= 2, >= 2 distinct anchors)
+        late = sum(1 for st in c["steps"][1:] if _deg(c, st["graph"], st["node"]) >= 2)
+        if late and len(set(c["anchors"])) >= 2:
+            yield "history_late_call_order_sensitive=yes"
+        if c.get("default_anchor"):
+            yield "default_anchor=yes"
+        for o in out[1]:
+            yield "history_result=" + o[0]
+        return
     g = c["graph"]
     d = _deg(c)
     yield "class=" + ("multigraph" if c["mg"] else "graph")
     yield "degree=" + (str(d) if d < 5 else "5+")
     yield "order=" + c["order"]
-    yield "ids=" + ("contiguous" if _contig(c) else "other")
+    yield "ids=" + ("contiguous" if _contig(g) else "other")
     yield "result=" + out[0]
+    if c.get("default_anchor"):
+        yield "default_anchor=yes"
     k = sub_graph(c).number_of_nodes()
     yield "pattern=" + ("empty" if k == 0 else "single" if k == 1 else "multi")
     if "{" in c["pattern"]:
@@ -404,9 +603,8 @@ def classes(c, out):
 
 
 def py_invariants(c, out):
-    if c["kind"] == "mtie":
-        return []
-    msgs = []
-    if not out[-1]:
-        msgs.append("replace_node mutated its graph argument")
-    return msgs
+    """Runtime facts a pure model cannot show (computed in run_impl, where the objects are at hand):
+    the graph argument, the ProxyGraph (pattern, anchor list object and contents), the caller's anchor
+    list and the default anchor list are unchanged, the Parser object still parses, and in a history no
+    earlier result is modified by a later call."""
+    return list(out[-1])
